@@ -287,7 +287,12 @@ pub(crate) fn compute_split_positions(
                 && (sum + weights[permutation[idx]] < threshold
                 // multiplication between modifiers and weights can cause nasty
                 // rounding precision loss which would put an element in a wrong part
-                || Ulps::default().eq(&threshold, &(sum + weights[permutation[idx]])))
+                // (compared relative to the total: the test must not depend on
+                // the unit of the weights)
+                || Ulps::default().eq(
+                    &(threshold / total_weight),
+                    &((sum + weights[permutation[idx]]) / total_weight),
+                ))
             {
                 sum += weights[permutation[idx]];
                 idx += 1;
